@@ -66,14 +66,12 @@ def act_tok(op, i, k, salt=0):
     return "i"
 
 
-def enum_scripts(depth, maxslots=3):
-    """every action sequence of length <= depth, slots introduced in order, only created slots referenced,
-    nothing after a main-level terminal action when no coroutine exists yet"""
-    out = []
-
+def enum_scripts(depth, maxslots=3, only_len=None):
+    """generator: every action sequence of length <= depth, slots introduced in order, only created slots
+    referenced, nothing after a main-level terminal action when no coroutine exists yet"""
     def rec(prefix, created, k):
-        if prefix:
-            out.append(list(prefix))
+        if prefix and (only_len is None or len(prefix) == only_len):
+            yield list(prefix)
         if k > depth:
             return
         opts = []
@@ -88,12 +86,12 @@ def enum_scripts(depth, maxslots=3):
         for op, j, c2 in opts:
             tok = act_tok(op, j, k)
             if created == 0 and op in ("y", "ret", "e"):
-                out.append(prefix + [tok])       # main-level terminal: the script ends here
+                if only_len is None or len(prefix) + 1 == only_len:
+                    yield prefix + [tok]       # main-level terminal: the script ends here
                 continue
-            rec(prefix + [tok], c2, k + 1)
+            yield from rec(prefix + [tok], c2, k + 1)
 
-    rec([], 0, 1)
-    return out
+    yield from rec([], 0, 1)
 
 
 def rand_script(rng, maxslots=3):
@@ -451,23 +449,30 @@ def instrument_thread_go(src):
 
     def fe(b):
         lines = b.split("\n")
-        send = next((i for i, l in enumerate(lines) if re.search(r"caller\.sendResumeValues\(", l)), None)
-        rel = next((i for i, l in enumerate(lines) if re.search(r"t\.ReleaseBytes\(", l)), None)
-        if send is None:
-            raise ValueError("end: no send")
+
+        def idx(pat):
+            return next((i for i, l in enumerate(lines) if re.search(pat, l)), None)
+        send, rel = idx(r"caller\.sendResumeValues\("), idx(r"t\.ReleaseBytes\(")
+        lock, clean = idx(r"^\s*t\.mux\.Lock\(\)"), idx(r"err = t\.cleanupCloseStack\(")
+        if send is None or lock is None or clean is None:
+            raise ValueError("end: send / lock / cleanupCloseStack not found")
         b = ins(b, r"^\s*caller := t\.caller", 'veriftrace("F" + verifMsgKind(args, err, exception)); veriftrace("s20")', "before", 1, "end")
+        if clean < lock:
+            # repaired order: the handler phase precedes the locked section; its end is one action
+            b = ins(b, r"^\s*t\.mux\.Lock\(\)", 'veriftrace("HD" + verifMsgKind(args, err, exception))', "before", 1, "end")
+        else:
+            # handlers inside the locked section (old code): action 25 after they ran
+            b = ins(b, r"^\s*err = t\.cleanupCloseStack\(", 'veriftrace("s25")', "after", 1, "end")
         b = ins(b, r"^\s*t\.mux\.Lock\(\)", 'veriftrace("s21")', "after", 1, "end")
         b = ins(b, r"^\s*caller\.mux\.Lock\(\)", 'veriftrace("s22")', "after", 1, "end")
         b = ins(b, r"^\s*defer t\.mux\.Unlock\(\)", 'defer func() { veriftrace("s30"); t.mux.Unlock() }()', "replace", 1, "end")
         b = ins(b, r"^\s*defer caller\.mux\.Unlock\(\)", 'defer func() { veriftrace("s29"); caller.mux.Unlock() }()', "replace", 1, "end")
         b = ins(b, r"^\s*close\(t\.resumeCh\)", 'veriftrace("s23")', "before", 1, "end")
         b = ins(b, r"^\s*t\.status = ThreadDead", 'veriftrace("s24")', "before", 1, "end")
-        b = ins(b, r"^\s*err = t\.cleanupCloseStack\(", 'veriftrace("s25")', "after", 1, "end")
-        b = ins(b, r"^\s*t\.closeStack\.truncate\(0\)", 'veriftrace("s25")', "after", 1, "end")
         b = ins(b, r"^\s*t\.closeErr = err", 'veriftrace("s26")', "before", 1, "end")
         if rel is not None:
             b = ins(b, r"^\s*t\.ReleaseBytes\(", 'veriftrace("%s")' % ("s27" if rel < send else "s28"), "before", 1, "end")
-        b = ins(b, r"^\s*caller\.sendResumeValues\(", 'veriftrace("D")', "before", 1, "end")
+        b = ins(b, r"^\s*caller\.sendResumeValues\(", 'veriftrace("M" + verifMsgKind(args, err, exception)); veriftrace("D")', "before", 1, "end")
         return b
     edit("end", fe)
 
@@ -543,6 +548,13 @@ def normalise_trace(tr):
             last_lua[g] = m
             out.append("%s:F%s" % (g, m if m[0] in "ve" else "t"))
             continue
+        if l.startswith("HD"):
+            m = l[2:]
+            out.append("%s:HD%s" % (g, m if m[0] in "ve" else "t"))
+            continue
+        if l[0] == "M":          # what end is about to send (after the handlers may have changed err)
+            last_lua[g] = l[1:]
+            continue
         if l[0] == "R":
             last_lua[g] = "v" + l.split(".")[1]
         elif l[0] == "X":
@@ -556,33 +568,20 @@ def normalise_trace(tr):
 
 
 # ------------------------------------------------------------------ special scripts (d)
-SPECIAL = [
-    # name, lua, limits, expectation
-    ("handler-resumes-in-close",
-     'local other = coroutine.create(function() emit("other") end)\n'
-     'local co = coroutine.create(function() local x <close> = setmetatable({}, {__close=function() emit("closing"); emit(coroutine.resume(other)) end}); coroutine.yield(1) end)\n'
-     'emit(coroutine.resume(co)); emit(coroutine.close(co)); emit("after")', "",
-     "ok T:b1,i1;s636c6f73696e67;s6f74686572;b1;b1;s6166746572"),
-    ("handler-yields-in-close",
-     'local co = coroutine.create(function() local x <close> = setmetatable({}, {__close=function() emit("closing"); coroutine.yield(5) end}); coroutine.yield(1) end)\n'
-     'emit(coroutine.resume(co)); emit(pcall(coroutine.close, co)); emit("after")', "", None),
-    ("handler-resumes-on-error",
-     'local other = coroutine.create(function() emit("other") end)\n'
-     'local co = coroutine.create(function() local x <close> = setmetatable({}, {__close=function() emit("closing"); emit(coroutine.resume(other)) end}); error("boom", 0) end)\n'
-     'emit(coroutine.resume(co)); emit("after")', "",
-     "ok T:s636c6f73696e67;s6f74686572;b1;b0,s626f6f6d;s6166746572"),
-    ("handler-burns-cpu-in-close",
-     'local co = coroutine.create(function() local x <close> = setmetatable({}, {__close=function() emit("closing"); while true do end end}); coroutine.yield(1) end)\n'
-     'emit(coroutine.resume(co)); emit(coroutine.close(co)); emit("after")', "cpu=100000", "killed"),
-    ("kill-inside-coroutine",
-     'local co = coroutine.wrap(function() emit("in"); while true do end end)\nco(); emit("not reached")', "cpu=50000", "killed T:s696e"),
-    ("kill-inside-nested-coroutine",
-     'local inner = coroutine.wrap(function() emit("inner"); coroutine.yield(1); while true do end end)\n'
-     'local outer = coroutine.create(function() inner(); emit("mid"); inner(); emit("not reached") end)\n'
-     'emit(coroutine.resume(outer)); emit("not reached 2")', "cpu=50000", "killed T:s696e6e6572;s6d6964"),
-    ("kill-in-main-with-suspended",
-     'local co = coroutine.create(function() coroutine.yield(1) end)\ncoroutine.resume(co); while true do end', "cpu=50000", "killed T:-"),
-]
+def load_specials():
+    """corpus/C09/special-*.lua: quota kills inside coroutines, __close handlers run by Thread.end that do
+    coroutine operations / yield / exhaust the quota (witnesses of the fixed findings; replayed first forever).
+    Header: -- limits: .. / -- expect: <prefix of the result line> / -- goroutines: N / -- finding: id"""
+    d = os.path.join(vlib.VERIF, "corpus", "C09")
+    out = []
+    for fn in sorted(os.listdir(d)) if os.path.isdir(d) else []:
+        if fn.startswith("special-") and fn.endswith(".lua"):
+            txt = open(os.path.join(d, fn)).read()
+            hdr = dict(re.findall(r"^-- (\w+): ?(.*)$", txt, re.M))
+            lua = "\n".join(l for l in txt.split("\n") if not re.match(r"^-- (limits|expect|goroutines|finding):", l))
+            out.append((fn[8:-4], lua, hdr.get("limits", "").strip(), hdr.get("expect", "").strip() or None,
+                        int(hdr.get("goroutines", "0") or 0), hdr.get("finding", "").strip()))
+    return out
 
 
 def hexsrc(s):
@@ -623,6 +622,34 @@ def run(tier, seed):
         return ck.finish("n/a", TRUSTED, [])
     known = {k["id"]: k for k in ck.known}
 
+    # ---------------- (d) special scripts (corpus): quota kills and __close handlers run by Thread.end
+    SPECIAL = load_specials()
+    sl = ["q%d %s %s exp=%d" % (i, hexsrc(lua), lim, g) for i, (nm, lua, lim, ex, g, fid) in enumerate(SPECIAL)]
+    so = vlib.run_lines_resilient(gvt, ["script"], sl, per_case_timeout=8)
+    for i, (nm, lua, lim, ex, g, fid) in enumerate(SPECIAL):
+        o = so[i] if i < len(so) else "?"
+        ck.count("special:" + nm)
+        ck.case("special:" + nm, True)
+        f = o.split(" ")
+        bad = None
+        if len(f) > 1 and f[1] == "HANG":
+            bad = "deadlock"
+        elif len(f) > 1 and f[1] == "CRASH":
+            bad = "crash"
+        elif ex is not None and not " ".join(f[1:]).startswith(ex):
+            bad = "wrong-result"
+        elif ("G:%d" % g) not in f:
+            bad = "goroutines-left"
+        if bad:
+            k = ck.known_match(lambda k: k.get("match", {}).get("special") == nm and k.get("match", {}).get("outcome") == bad)
+            if k:
+                ck.known_finding(k)
+            else:
+                ck.violation("special coroutine script %s: %s%s" % (nm, bad, (" (regression of fixed finding %s)" % fid) if fid else ""),
+                             {"kind": "Go!=S", "engine": "thread", "special": nm, "lua": lua, "limits": lim, "impl": o[:1500],
+                              "expected_prefix": ex, "expected_goroutines": g, "theorems": ["C09_no_deadlock"]})
+    ck.log("(d) %d special scripts" % len(SPECIAL))
+
     # ---------------- (a) scripts
     scripts = []     # (tokens, tbc)
     corpus = os.path.join(vlib.VERIF, "corpus", "C09")
@@ -637,23 +664,24 @@ def run(tier, seed):
                         scripts.append((sc.split(";"), tbc == "1"))
                         ncorpus += 1
     depth_full = 4 if tier == "quick" else 5
-    full = enum_scripts(depth_full)
+    full = list(enum_scripts(depth_full))
     for i, sc in enumerate(full):
         scripts.append((sc, i % 2 == 0))
     nfull = len(full)
     # deterministic slice of the next depth(s)
     nslice = 0
-    deeper = enum_scripts(depth_full + 1)
-    stride = 151 if tier == "quick" else 3
-    for i, sc in enumerate(deeper):
-        if len(sc) == depth_full + 1 and i % stride == 0:
+    stride = 151 if tier == "quick" else 29
+    ndeeper = 0
+    for i, sc in enumerate(enum_scripts(depth_full + 1, only_len=depth_full + 1)):
+        ndeeper += 1
+        if i % stride == 0:
             scripts.append((sc, i % 2 == 1))
             nslice += 1
     nrand = 800 if tier == "quick" else 60000
     for i in range(nrand):
         scripts.append((rand_script(ck.rng), i % 3 != 0))
     ck.log("scripts: corpus %d, all of depth<=%d: %d, slice of depth %d: %d (of %d), random %d" % (
-        ncorpus, depth_full, nfull, depth_full + 1, nslice, sum(1 for s in deeper if len(s) == depth_full + 1), nrand))
+        ncorpus, depth_full, nfull, depth_full + 1, nslice, ndeeper, nrand))
     mlines = ["s%d S %d 3 %s" % (i, 1 if tbc else 0, ";".join(sc)) for i, (sc, tbc) in enumerate(scripts)]
     rc2, model, e2 = vlib.run_lines(oracle, [], mlines, timeout=1800)
     if rc2 != 0 or len(model) != len(mlines):
@@ -690,7 +718,7 @@ def run(tier, seed):
             if ndiff <= 3:
                 ck.violation("coroutine script makes the implementation hang or crash: " + (impl[i][:200] if i < len(impl) else "no output"),
                              {"kind": "Go!=S", "engine": "thread", "script": ";".join(sc), "tbc": tbc, "lua": sources[i],
-                              "impl": impl[i] if i < len(impl) else None, "model": model[i], "theorems": ["C09_no_deadlock_refuted (the only modelled deadlock is the known one)"]})
+                              "impl": impl[i] if i < len(impl) else None, "model": model[i], "theorems": ["C09_no_deadlock"]})
             continue
         if (g[0], g[1], g[2]) != (m[0], m[1], m[2]):
             ndiff += 1
@@ -711,35 +739,6 @@ def run(tier, seed):
     ck.cov["script_differences"] = ndiff
     ck.cov["goroutine_count_differences"] = gleft
     ck.log("(a) %d scripts compared, %d differences, %d goroutine-count differences" % (len(scripts), ndiff, gleft))
-
-    # ---------------- (d) special scripts: quota kills and __close handlers doing coroutine operations
-    sl = ["q%d %s %s exp=9" % (i, hexsrc(lua), lim) for i, (nm, lua, lim, ex) in enumerate(SPECIAL)]
-    so = vlib.run_lines_resilient(gvt, ["script"], sl, per_case_timeout=8)
-    for i, (nm, lua, lim, ex) in enumerate(SPECIAL):
-        o = so[i] if i < len(so) else "?"
-        ck.count("special:" + nm)
-        ck.case("special:" + nm, True)
-        f = o.split(" ")
-        bad = None
-        if len(f) > 1 and f[1] == "HANG":
-            bad = "deadlock"
-        elif len(f) > 1 and f[1] == "CRASH":
-            bad = "crash"
-        elif ex is not None and not " ".join(f[1:]).startswith(ex):
-            bad = "wrong-result"
-        if bad:
-            k = ck.known_match(lambda k: k.get("match", {}).get("special") == nm and k.get("match", {}).get("outcome") == bad)
-            if k:
-                ck.known_finding(k)
-            else:
-                ck.violation("special coroutine script %s: %s" % (nm, bad),
-                             {"kind": "Go!=S", "engine": "thread", "special": nm, "lua": lua, "limits": lim, "impl": o[:1500], "expected_prefix": ex,
-                              "theorems": ["C09_no_deadlock_refuted (the only modelled deadlock is the known one)"]})
-        else:
-            for k in ck.known:
-                if k.get("status") == "open" and k.get("match", {}).get("special") == nm:
-                    ck.violation("recorded finding %s no longer reproduces (model Proto.v cfg 'current' is stale)" % k["id"],
-                                 {"kind": "Go!=IM", "special": nm, "impl": o[:600]}, no_input=True)
 
     # ---------------- (b) race build
     race_runs = race_reports = 0
@@ -802,6 +801,26 @@ def run(tier, seed):
         sel = list(range(0, len(scripts), step))[:ntr]
         tl = ["s%d %s exp=%s" % (i, hexsrc(sources[i]), norm_model(model[i])[3]) for i in sel]
         to = par_resilient(gtr, ["script"], tl, per_case_timeout=20)
+        # the special scripts too (handler phase of end doing coroutine operations, kills)
+        sto = vlib.run_lines_resilient(gtr, ["script"], sl, per_case_timeout=8)
+        splines = []
+        for j, o in enumerate(sto):
+            g = norm_go(o)
+            if g is None:
+                ck.violation("special script %s hangs/crashes on the instrumented build" % SPECIAL[j][0], {"kind": "Go!=IM", "impl": o[:800]}, no_input=True)
+                continue
+            toks, problems = normalise_trace(g[4])
+            splines.append((SPECIAL[j][0], toks, problems))
+        _, spo, _ = vlib.run_lines(oracle, [], ["q%d P current %s" % (j, ";".join(t[1])) for j, t in enumerate(splines)], timeout=120)
+        for j, o in enumerate(spo):
+            nm, toks, problems = splines[j]
+            nvalid += 1
+            ck.count("trace-special")
+            if problems or not o.endswith("accept"):
+                ck.violation("recorded action trace of special script %s is not a behaviour of the protocol model: %s" % (nm, problems[0] if problems else o),
+                             {"kind": "Go!=IM", "correspondence": "Go≈IM/thread-trace", "special": nm, "trace": ";".join(toks), "acceptor": o}, no_input=True)
+            elif nm == "handler-resumes-in-close":
+                ck.sample({"trace_of_special": nm, "trace": ";".join(toks)[:900]})
         plines, meta = [], []
         for j, o in enumerate(to):
             g = norm_go(o)
@@ -829,11 +848,12 @@ def run(tier, seed):
                 nrej += 1
                 if nrej <= 2:
                     # does the old-order protocol accept it?  (regression: ReleaseBytes moved back after the send)
-                    _, po2, _ = vlib.run_lines(oracle, [], ["x P old %s" % ";".join(toks)], timeout=60)
+                    _, po2, _ = vlib.run_lines(oracle, [], ["x P old %s" % ";".join(toks), "y P oldh %s" % ";".join(toks)], timeout=60)
+                    po2 = [l for l in po2 if l.endswith("accept")] or po2
                     ck.violation("recorded action trace of runtime/thread.go is not a behaviour of the protocol model: " + bad,
                                  {"kind": "Go!=IM", "correspondence": "Go≈IM/thread-trace", "script": ";".join(scripts[i][0]), "tbc": scripts[i][1],
-                                  "trace": ";".join(toks), "problem": bad, "old_order_protocol": (po2[0] if po2 else None),
-                                  "note": "if old_order accepts: ReleaseBytes is executed after the hand-off again — Proto.baton_unique_old_order_refuted is the failing behaviour (data race with the resumer)",
+                                  "trace": ";".join(toks), "problem": bad, "old_protocols(old_order/old_handlers)": (po2[0] if po2 else None),
+                                  "note": "if an old protocol accepts: the code is back to a refuted variant — Proto.baton_unique_old_order_refuted (ReleaseBytes after the hand-off: data race) or no_deadlock_old_handlers_refuted (handlers inside the locked section: deadlock)",
                                   "lua": sources[i], "theorems_no_longer_about_this_code": ["C09_baton_unique", "C09_no_deadlock_partial",
                                                                                              "C09_no_goroutine_left", "C09_values_transferred_exactly"]},
                                  no_input=not (po2 and po2[0].endswith("accept")))
@@ -859,7 +879,7 @@ def run(tier, seed):
              "nil in first/last position; compared event by event with the extracted SpecS.srun + goroutines left; non-trivial = at least 2 "
              "transfer/status events; distinct by script text. Plus %d special scripts (quota kills, __close handlers doing coroutine ops), "
              "race-build runs under GOMAXPROCS 1/2/4/16 and recorded protocol traces replayed through the extracted acceptor" % (
-                 depth_full, stride, depth_full + 1, len(SPECIAL)),
+                 depth_full, stride, depth_full + 1, len(load_specials())),
         trusted_base=TRUSTED,
         assumptions=["error values in scripts are integers (no position prefix); error message texts are compared by class",
                      "goroutine count is taken after a settling loop of at most 1.5 s",
